@@ -316,6 +316,10 @@ fn captured_v<V: Fv>(ctx: &Ctx, nkeys: usize, rep: &mut Report) {
 }
 
 pub fn captured(ctx: &Ctx, rep: &mut Report) {
+    if !crate::pool::keygen_responds::<F512>() {
+        rep.inconclusive("key generation did not return within 180 s (canary); reported as inconclusive, never as a violation".into());
+        return;
+    }
     captured_v::<F1024>(ctx, ctx.sz(4, 80), rep);
     captured_v::<F512>(ctx, ctx.sz(28, 320), rep);
     rep.require("captured_inputs", 16);
